@@ -9,7 +9,8 @@ type tagSpacelessNode struct {
 	wrapper *NodeWrapper
 }
 
-var tagSpacelessRegexp = regexp.MustCompile(`(?U:(<.*>))([\t\n\v\f\r ]+)(?U:(<.*>))`)
+// (s: a tag may span several lines, e.g. an <a> with its href on a line of its own)
+var tagSpacelessRegexp = regexp.MustCompile(`(?Us:(<.*>))([\t\n\v\f\r ]+)(?Us:(<.*>))`)
 
 func (node *tagSpacelessNode) Execute(ctx *ExecutionContext, writer TemplateWriter) *Error {
 	b := bytes.NewBuffer(make([]byte, 0, 1024)) // 1 KiB
